@@ -839,6 +839,8 @@ def canon_analyse(d, inst, fn, state0, why0, shift_flows, depth):
                         nev += 1      # swaps buffer with another bitset's; the matching size swap is C03.blocks' business
                     elif via_bits:
                         nev += 1      # writes through bit iterators touch single bits below size()
+                    elif touches and re.search(r"\)\s*const", ir.qtype(fn)) and not any(x_.get("kind") == "CXXConstCastExpr" for x_ in ir.walk_expr(fn)):
+                        nev += 1      # inside a const member the buffer is const: whatever is called can only read it
                     elif touches:
                         state, why, at = UNKNOWN, "call to %s on the buffer" % f, n
                     continue
@@ -1350,6 +1352,21 @@ def rule_empty(rep, inst):
                 facts, nonempty, pn = path_facts(path[:i], fn, d, linit)
                 key = id(n)
                 ok = nonempty
+                if not ok and isinstance(tgt[1], tuple) and tgt[1][0] == "bin" and tgt[1][1] == "-" and tgt[1][2][0] == "ref":
+                    # `m_buffer[v - 1]` under a dominating `v > 0` / `v != 0` (a count-down loop): the index cannot wrap whatever the size is
+                    from .. import norm as norm_
+                    v_ = tgt[1][2]
+                    for st2 in path[:i]:
+                        if st2[0] == "cond":
+                            c2 = norm_.norm_cmp(ir.sx(st2[1]), lambda x: x == v_)
+                            if c2 is None:
+                                if norm_.uncast(ir.sx(st2[1])) == v_ and st2[2]:
+                                    ok = True
+                                continue
+                            op2 = c2[0] if st2[2] else norm_.NEGOP[c2[0]]
+                            k2 = norm_.int_of(c2[2])
+                            if k2 is not None and ((op2 == ">" and k2 >= 0) or (op2 == "!=" and k2 == 0) or (op2 == ">=" and k2 >= 1)):
+                                ok = True
                 seen[key] = (n, seen.get(key, (None, True))[1] and ok)
         for key, (n, ok) in seen.items():
             txt = d.text(n)[:50]
